@@ -544,6 +544,9 @@ def run(chk, tier):
             ("Debug", 'struct S<T>(T, Option<Box<self::S<T>>>);', "S<i32>"),
             ("Debug", 'struct S<T, U> { v: T, #[debug(skip)] st: U, next: Option<Box<super::CUR::S<T, u8>>> }', "S<i32, NoFmt>"),
             ("Display", 'enum S<T> { #[display("{_0}")] Lit(T), #[display("-{_0}")] Neg(Box<self::S<T>>), #[display("({_0} + {_1})")] Add(Box<crate::CUR::S<T>>, Box<S<T>>) }', "S<i32>"),
+            # ... behind a reference only (the reference is moved off the bound before the type is looked at: fifth reading, of fd8cc1f)
+            ("Debug", "enum S<'a, T> { Nil, Cons(T, &'a self::S<'a, T>) }", "S<'static, i32>"),
+            ("Debug", "struct S<'a, T>(T, (&'a self::S<'a, T>), Option<&'a S<'a, T>>);", "S<'static, i32>"),
             ("Debug", 'enum S<T> { Leaf(T), #[debug("node{_0:?}")] Node(Vec<S<T>>) }', "S<i32>")):
         fn = "assert_impl" if derive == "Display" else "assert_impl_debug"
         item = item.replace("CUR", "c%d" % len(cases))      # the module the engine puts this case in
